@@ -9,11 +9,14 @@ import (
 	"github.com/tink-crypto/tink-go/v2/aead/aesgcm"
 	"github.com/tink-crypto/tink-go/v2/hybrid"
 	"github.com/tink-crypto/tink-go/v2/hybrid/ecies"
+	"github.com/tink-crypto/tink-go/v2/internal/internalapi"
 	"github.com/tink-crypto/tink-go/v2/internal/keygenregistry"
 	"github.com/tink-crypto/tink-go/v2/key"
 	"github.com/tink-crypto/tink-go/v2/signature"
 	"github.com/tink-crypto/tink-go/v2/signature/ecdsa"
+	tinkmldsa "github.com/tink-crypto/tink-go/v2/signature/mldsa"
 	"github.com/tink-crypto/tink-go/v2/signature/rsassapss"
+	prehashmldsa "github.com/tink-crypto/tink-go/v2/signprehash/mldsa"
 	"github.com/tink-crypto/tink-go/v2/verifharness/hx"
 )
 
@@ -34,6 +37,9 @@ func looseParams(op string) (key.Parameters, error) {
 	switch f[0] {
 	case "hpke", "mldsa", "slhdsa", "ed25519":
 		p, _, err := paramsOf(op, "T")
+		return p, err
+	case "mldsapre": // the external-mu (prehash) signer of an ML-DSA key
+		p, _, err := paramsOf("mldsa:"+f[1], "T")
 		return p, err
 	case "ecdsa":
 		curve := map[string]ecdsa.CurveType{"p256": ecdsa.NistP256, "p384": ecdsa.NistP384, "p521": ecdsa.NistP521}[f[1]]
@@ -128,6 +134,28 @@ func looseOutputs(op string, k int, tape *hx.Tape) (outs [][]byte, used []int, e
 			return nil, nil, e
 		}
 		body(func() ([]byte, error) { return enc.Encrypt([]byte("same message"), []byte("info")) })
+	case "mldsapre":
+		priv, ok := ky.(*tinkmldsa.PrivateKey)
+		if !ok {
+			return nil, nil, fmt.Errorf("mldsapre: not an ML-DSA private key: %T", ky)
+		}
+		pk, e := priv.PublicKey()
+		if e != nil {
+			return nil, nil, e
+		}
+		ph, e := prehashmldsa.NewPrehash(pk.(*tinkmldsa.PublicKey), internalapi.Token{})
+		if e != nil {
+			return nil, nil, e
+		}
+		ps, e := prehashmldsa.NewPrehashSigner(priv, internalapi.Token{})
+		if e != nil {
+			return nil, nil, e
+		}
+		pre, e := ph.ComputePrehash([]byte("same message"))
+		if e != nil {
+			return nil, nil, e
+		}
+		body(func() ([]byte, error) { return ps.SignPrehash(pre) })
 	default:
 		s, e := signature.NewSigner(h)
 		if e != nil {
